@@ -15,7 +15,7 @@ def describe(c):
         irset = a[0]; a = ["irset %s onoff=%s %d waves" % (irset["IRSetID"], irset["OnOffType"], len(irset["IRWaveList"]))] + a[1:]
     return "%s%r id=%s key=%s now=%d replies=%s%s" % (world.KIND_NAMES[c["kind"]], tuple(a), c["id"], c["key"], c["now"],
                                                        [r[:24] + (".." if len(r) > 24 else "") for r in c["replies"]],
-                                                       (" reply delays (s)=%s" % c["delays"] if c.get("delays") else "") +
+                                                       (" reply delays (s)=%s%s" % (c["delays"], ", the wall clock moving along" if c.get("clock_moves") else "") if c.get("delays") else "") +
                                                        (" device after its last reply: %s" % c["device_after_last_reply"] if c.get("device_after_last_reply") else ""))
 
 
